@@ -191,6 +191,27 @@ def corpus(kind, spec, canary, dtd_path, port, rng):
             docs.append({'template': 'multiref-accessor-attr-flood-%d' % n, 'method': 'echo_item', 'pos': 'attr', 'bomb': False, 'multiref': True,
                          'forbidden_text': [], 'doc': multiref('', '<tns:Item id="top"><tns:a>7</tns:a><tns:b>x</tns:b></tns:Item>').replace(
                              '<tns:it href="#top"/>', '<tns:it href="#top" %s/>' % attrs)})
+        # the same expansion below plain elements and below elements that carry an href attribute of their own (a link in the user's model,
+        # not an accessor: it has children): what decides whether the request is served must not depend on that attribute
+        for n_w, n_c in ((600, 40), (30, 10)) if tier == 'quick' else ((600, 40), (30, 10), (3000, 40), (100, 200), (2000, 4)):
+            big = '<tns:v id="big">%s</tns:v>' % ('<tns:c>x</tns:c>' * n_c)
+            for role, attr in (('plain', ''), ('href-attr', ' href="http://example.com/%d"'), ('href-local-attr', ' href="#nosuch%d"'), ('other-attr', ' rel="r%d"')):
+                ws = ''.join('<tns:w%s><tns:k href="#big"/></tns:w>' % ((attr % i) if attr else '') for i in range(n_w))
+                docs.append({'template': 'multiref-wide-%dx%d-%s' % (n_w, n_c, role), 'method': 'echo_item', 'pos': 'elem', 'bomb': False, 'multiref': True,
+                             'forbidden_text': [], 'twin': 'multiref-wide-%dx%d' % (n_w, n_c), 'twin_role': role,
+                             'doc': multiref('', big).replace('<tns:it href="#top"/>', '<tns:it><tns:a>7</tns:a><tns:b>x</tns:b>%s</tns:it>' % ws)})
+        # what is copied for every reference includes the attributes of the referenced element and of its descendants
+        for n_attr, n_ref in ((5000, 400),) if tier == 'quick' else ((5000, 400), (200, 5000), (20000, 100)):
+            attrs = ' '.join('a%d=""' % i for i in range(n_attr))
+            docs.append({'template': 'multiref-attrs-%dx%d' % (n_attr, n_ref), 'method': 'echo_item', 'pos': 'attr', 'bomb': False, 'multiref': True, 'forbidden_text': [],
+                         'doc': multiref('', '<tns:v id="big" %s/>' % attrs).replace(
+                             '<tns:it href="#top"/>', '<tns:it><tns:a>7</tns:a><tns:b>x</tns:b>%s</tns:it>' % ('<tns:k href="#big"/>' * n_ref))})
+        # depth through chains of referenced elements: each of them nests its accessor deeply
+        for n_t, depth in ((8, 200),) if tier == 'quick' else ((8, 200), (3, 240), (40, 100), (200, 20)):
+            vals = ''.join('<tns:v id="m%d">%s%s%s</tns:v>' % (i, '<tns:q>' * depth, '<tns:k href="#m%d"/>' % (i + 1) if i + 1 < n_t else '<tns:c>x</tns:c>',
+                                                                '</tns:q>' * depth) for i in range(n_t))
+            docs.append({'template': 'multiref-deep-%dx%d' % (n_t, depth), 'method': 'echo_item', 'pos': 'elem', 'bomb': False, 'multiref': True, 'forbidden_text': [],
+                         'doc': multiref('', vals).replace('<tns:it href="#top"/>', '<tns:it><tns:a>7</tns:a><tns:b>x</tns:b><tns:k href="#m0"/></tns:it>')})
         docs.append({'template': 'multiref-plain', 'method': 'echo_item', 'pos': 'elem', 'bomb': False, 'multiref': True, 'control': True,
                      'forbidden_text': [], 'doc': multiref('', '<tns:Item id="top"><tns:a>7</tns:a><tns:b>x</tns:b></tns:Item>')})
     # benign controls: the monitors must see a normal call
@@ -465,6 +486,7 @@ def run(spec, R):
         return
     if accepted:
         R.violation('network canary accepted %d connections' % accepted, {'spec': spec}, mech='network_connect')
+    twins = {}
     for d in docs:
         r = results.get(d['i'])
         if r is None:
@@ -530,6 +552,8 @@ def run(spec, R):
                     if entered:
                         R.violation('user function ran for a bomb document (%s)' % d['template'], case, mech='bomb_reached_user_code')
                     R.violation('bomb document not answered with a client fault: %r' % (fault,), case, mech='bomb_not_client_fault')
+        if d.get('twin'):
+            twins.setdefault(d['twin'], {})[d['twin_role']] = ('refused' if fault is not None else 'served' if entered else 'other', case)
         if d.get('control'):
             if not entered or fault is not None:
                 R.inconclusive.append('control request did not run normally: %r' % (fault,))
@@ -543,6 +567,13 @@ def run(spec, R):
         if len(R.samples) < 4 and d['template'].startswith(('ext-general-file', 'bomb-chain', 'internal')):
             R.sample({'case': {k: case[k] for k in ('kind', 'driver', 'template', 'pos')}, 'doc': case['doc'][:400], 'outcome': outcome,
                       'syscalls_in_segment': len(seg), 'cpu_s': r.get('cpu_s')})
+    for key, roles in sorted(twins.items()):
+        base = roles.get('plain')
+        for role, (verdict, case) in sorted(roles.items()):
+            R.count('twin_documents_compared')
+            if base is not None and verdict != base[0]:
+                R.violation('%s: the request is %s below plain elements and %s below elements with the attribute variant %r' % (key, base[0], verdict, role), case,
+                            mech='multiref_verdict_depends_on_attribute:%s' % role)
     R.counters['max_rss_kb'] = max([r.get('maxrss_kb', 0) for r in results.values()] or [0])
     _rm(canary, dtd, cpath, opath, spath)
     R.counters['wall_child_s'] = int(time.time() - t0)
